@@ -929,37 +929,99 @@ def ctx5(ctx: Ctx) -> None:
     fn = mod.fn(q)
     ctx.R.saw(mod, q)
     calls = [c for c in calls_in(fn, True) if ctx.P.resolve_call(mod, c).is_pkg("_customization", "unwrap_context_generator")]
-    if len(calls) != 2:
-        raise AnalysisError(f"CTX-5: {len(calls)} unwrap_context_generator calls (2 confirmed by hand)")
-    from .opcodes import guards_of
+    if not calls:
+        raise AnalysisError("CTX-5: unwrap_generatorbased_contextmanager no longer calls unwrap_context_generator")
     cvar = fn.args.args[1].arg
-    for c in calls:
-        a0 = norm(c.args[0])
-        gs = [norm(g) for g, pol in guards_of(mod, c, fn) if pol]
-        if not any("in unwrap_context_generator.registry" in g for g in gs):
-            ctx.R.fail("CTX-5", mod, c, "unwrap_context_generator must be consulted only for generator code that has a registration")
+    mvar = fn.args.args[0].arg
+    # extraction with overridden options on the exiting path (the hook would see a different Frame than on the other path)
+    for c in ast.walk(fn):
+        if isinstance(c, ast.Call) and ctx.P.resolve_call(mod, c).is_pkg("_extract", "extract_outermost") and (len(c.args) > 1 or c.keywords):
+            ctx.R.fail("CTX-5", mod, c, "on the exiting path the frame handed to unwrap_context_generator is extracted with overridden options: "
+                       "the hook sees a different Frame (e.g. no contexts) than on the non-exiting path, where it gets inner_stack.frames[0]", construct=f"exiting path: {norm(c)}")
+    # what the hook returns, for every combination of: code registered / inner stack present / it has frames / extraction raises
+    import copy
+    from ..stepper import Stepper, enumerate_table
+    from ..emit import Unsupported
+    body = copy.deepcopy([x for x in fn.body if not (isinstance(x, ast.Expr) and isinstance(x.value, ast.Constant))])
+
+    class Canon(ast.NodeTransformer):
+        """`mgr_code in unwrap_context_generator.registry` -> REGISTERED whatever the code variable is called"""
+        def visit_Compare(self, n: ast.Compare):
+            self.generic_visit(n)
+            if len(n.ops) == 1 and isinstance(n.ops[0], (ast.In, ast.NotIn)) and norm(n.comparators[0]) == "unwrap_context_generator.registry":
+                name = ast.copy_location(ast.Name(id="REGISTERED", ctx=ast.Load()), n)
+                return name if isinstance(n.ops[0], ast.In) else ast.copy_location(ast.UnaryOp(op=ast.Not(), operand=name), n)
+            return n
+
+
+    class NeverNone(ast.NodeTransformer):
+        """a Frame out of extract_outermost(...) / out of a non-empty frames list is never None"""
+        def visit_Compare(self, n: ast.Compare):
+            self.generic_visit(n)
+            if len(n.ops) == 1 and isinstance(n.ops[0], (ast.Is, ast.IsNot)) and isinstance(n.comparators[0], ast.Constant) and n.comparators[0].value is None:
+                t = norm(n.left)
+                if "extract_outermost(" in t or t.endswith(".frames[0]"):
+                    return ast.copy_location(ast.Constant(value=isinstance(n.ops[0], ast.IsNot)), n)
+            return n
+
+    body = [Canon().visit(x) for x in body]
+    R_, N_, F_ = "REGISTERED", f"{cvar}.inner_stack is None", f"{cvar}.inner_stack.frames"
+    known = [R_, N_, F_]
+
+    def run(assign):
+        st = Stepper(assign, simplify=lambda e: NeverNone().visit(e))
+        k, v = st.run(body, {})
+        if k == "return":
+            return norm(v) if v is not None else "None"
+        return "None" if k == "fall" else k
+
+    try:
+        atoms, rows = enumerate_table(run, known)
+    except Unsupported as ex:
+        ctx.R.undecided("CTX-5", f"unwrap_generatorbased_contextmanager is outside the step interpreter: {ex}")
+        rows = []
+        atoms = []
+    raise_atoms = [a for a in atoms if a.startswith("raises:") and "extract_outermost" in a]
+    code_atoms = [a for a in atoms if a.startswith("hasattr(") or "_code" in a]
+    bad = None
+    some = None
+    groups = {}
+    for assign, out in rows:
+        if not all(assign.get(a, True) for a in code_atoms if a.startswith("hasattr(")) and not any(assign.get(a) for a in code_atoms if a.startswith("hasattr(")):
+            continue  # neither gi_code nor ag_code: not a generator-based manager at all
+        if assign.get(f"{mvar}_code is None") or any(assign[a] for a in atoms if a.endswith("is None") and "code" in a):
             continue
-        if a0 == f"{cvar}.inner_stack.frames[0]":
-            if any(g == f"{cvar}.inner_stack.frames" for g in gs) and any(g == f"{cvar}.inner_stack is not None" for g in gs):
-                ctx.R.ok("CTX-5", "non-exiting path: context.inner_stack.frames[0] (outermost), guarded non-empty")
-            else:
-                ctx.R.fail("CTX-5", mod, c, "frames[0] must be guarded by inner_stack is not None and non-empty frames")
-        elif isinstance(c.args[0], ast.Name):
-            # frame = _extract.extract_outermost(mgr.gen)
-            src = [s for s in ast.walk(fn) if isinstance(s, ast.Assign) and norm(s.targets[0]) == a0]
-            if len(src) == 1 and isinstance(src[0].value, ast.Call) and ctx.P.resolve_call(mod, src[0].value).is_pkg("_extract", "extract_outermost") \
-                    and norm(src[0].value.args[0]).endswith(".gen") and (len(src[0].value.args) > 1 or src[0].value.keywords):
-                ctx.R.fail("CTX-5", mod, src[0], "on the exiting path the frame handed to unwrap_context_generator is extracted with overridden options: "
-                           "the hook sees a different Frame (e.g. no contexts) than on the non-exiting path, where it gets inner_stack.frames[0]",
-                           construct=f"exiting path: {norm(src[0].value)}")
-            elif len(src) == 1 and isinstance(src[0].value, ast.Call) and ctx.P.resolve_call(mod, src[0].value).is_pkg("_extract", "extract_outermost") \
-                    and norm(src[0].value.args[0]).endswith(".gen"):
-                ctx.R.ok("CTX-5", "exiting path: extract_outermost(mgr.gen)")
-            else:
-                ctx.R.fail("CTX-5", mod, c, "on the exiting path the frame must come from extract_outermost(mgr.gen)")
+        if not assign[R_]:
+            want = {"None"}
+        elif not assign[N_]:
+            want = {f"unwrap_context_generator({cvar}.inner_stack.frames[0], {cvar})"} if assign[F_] else {"None"}
         else:
-            ctx.R.fail("CTX-5", mod, c, f"unwrap_context_generator must receive the *outermost* frame of the manager's generator; got {a0}")
-        if norm(c.args[1]) != cvar:
+            if raise_atoms and any(assign[a] for a in raise_atoms):
+                want = {"None"}
+            else:
+                want = {f"unwrap_context_generator(_extract.extract_outermost({mvar}.gen), {cvar})", f"unwrap_context_generator(extract_outermost({mvar}.gen), {cvar})"}
+        key = (assign[R_], assign[N_], assign[F_], tuple(assign[a] for a in raise_atoms))
+        groups.setdefault(key, []).append((assign, out, want, out in want))
+    for key, lst in groups.items():
+        wrong = [r for r in lst if not r[3]]
+        if wrong and len(wrong) == len(lst):
+            bad = bad or wrong[0]
+        elif wrong:
+            some = some or wrong[0]
+    extra = [a for a in atoms if a not in known and a not in raise_atoms and a not in code_atoms]
+    if rows and bad is None and some is None:
+        ctx.R.ok("CTX-5", "unwrap_context_generator gets inner_stack.frames[0] when the inner stack exists (None if it has no frames), the outermost frame of a fresh extraction of mgr.gen when it does not, "
+                 "and only for registered generator code", f"{len(rows)} combinations of {atoms}")
+    elif bad is not None or (some is not None and not any(k_ in e for e in extra for k_ in known)):
+        assign, out, want, _ = bad or some
+        shown = {k_: v_ for k_, v_ in assign.items() if k_ in known or k_ in raise_atoms or k_ in extra}
+        ctx.R.fail("CTX-5", mod, fn, f"unwrap_generatorbased_contextmanager: with {shown} it returns `{out}` where `{sorted(want)[0]}` is required: a generator-based manager whose generator code has an "
+                   "unwrap_context_generator registration must be replaced by what that hook returns for the generator's outermost frame, whether or not an inner stack was attached before",
+                   construct="generator-manager unwrapping table")
+    elif some is not None:
+        ctx.R.undecided("CTX-5", f"differs from the reference only for some values of {extra}")
+    for c in calls:
+        if len(c.args) < 2 or norm(c.args[1]) != cvar:
             ctx.R.fail("CTX-5", mod, c, "second argument must be the context")
     # registration sibling: GCMBase gets both hooks
     g = mod.fn("glue_contextlib")
